@@ -96,6 +96,10 @@ func (verify *VerifyServerController) handlePairVerifyStart(in util.Container) (
 
 	verify.step = VerifyStepStartResponse
 
+	// Every exchange has a key pair of its own: what was sealed or signed
+	// for an earlier exchange on this connection is of no use in this one.
+	verify.session = NewVerifySession()
+
 	var otherPublicKey [32]byte
 	copy(otherPublicKey[:], clientPublicKey)
 
